@@ -357,6 +357,31 @@ def fam_binders(inst, a, b, c, sel):
                 inner=[('e', bvsort(b)), (('bvnot', 'e'), bvsort(b))])
 
 
+def fam_deffun(inst, a, b, c, sel):
+    """Defined functions whose parameter sorts differ from the result sort:
+    the parameters are typeable inside the body only."""
+    inst.var('x', bvsort(a))
+    inst.var('i', 'Int')
+    inst.decls.append(('define-fun', 'pos', (('pa', 'Int'), ('pb', 'Real')),
+                       'Bool', ('and', ('>', 'pa', 0), ('>', 'pb', '0.5'))))
+    inst.decls.append(('define-fun', 'wid', (('pw', bvsort(a)),
+                                             ('pv', bvsort(b))),
+                       bvsort(a + b), ('concat', 'pw', 'pv')))
+    inst.decls.append(('define-fun', 'sel', (('pc', 'Bool'),
+                                             ('pd', bvsort(a))),
+                       bvsort(a), ('ite', 'pc', 'pd', ('bvnot', 'pd'))))
+    inst.checks.append(('pa', 'Int'))
+    inst.checks.append(('pb', 'Real'))
+    inst.checks.append(('pw', bvsort(a)))
+    inst.checks.append(('pv', bvsort(b)))
+    inst.checks.append((('concat', 'pw', 'pv'), bvsort(a + b)))
+    inst.checks.append(('pc', 'Bool'))
+    inst.checks.append(('pd', bvsort(a)))
+    inst.checks.append((('bvnot', 'pd'), bvsort(a)))
+    inst.expect(('pos', 'i', '1.5'), 'Bool')
+    inst.expect(('sel', ('pos', 'i', '2.5'), 'x'), bvsort(a))
+
+
 # Inst.expect with inner terms (bound symbols are only typeable inside)
 def _expect(self, term, sort, inner=None):
     self.checks.append((term, sort))
@@ -406,6 +431,7 @@ FAMS['strings'] = (fam_strings, None)
 FAMS['arrays'] = (fam_arrays, None)
 FAMS['dt'] = (fam_dt, None)
 FAMS['binders'] = (fam_binders, None)
+FAMS['deffun'] = (fam_deffun, None)
 
 
 def _mk(Node, t):
@@ -611,6 +637,21 @@ def _bound_symbols(exprs):
     return out
 
 
+def _user_sorts(exprs):
+    """Names of the sorts the script declares itself."""
+    out = set()
+    for e in exprs:
+        if not e.has_ident() or len(e) < 2:
+            continue
+        idt = e.get_ident()
+        if idt in ('declare-sort', 'define-sort', 'declare-datatype') \
+                and e[1].is_leaf():
+            out.add(e[1].data)
+        if idt == 'declare-datatypes' and not e[1].is_leaf():
+            out |= {d[0].data for d in e[1] if len(d) > 0 and d[0].is_leaf()}
+    return out
+
+
 def _z3_accepts(text):
     import z3
     s = z3.Solver()
@@ -621,72 +662,124 @@ def _z3_accepts(text):
         return str(e)[:300]
 
 
-def conseq_instance(fname, nums, want=None):
-    """All proposals of the 'same sort' mutators at every term position of
-    one generated script.  Returns (n_proposals, n_out_of_scope, defect|None,
-    skipped_reason|None); ``want`` = (position, mutator, proposal) restricts
-    to one proposal (replay)."""
-    import importlib
-    from ddsmt import smtlib, nodeio, nodes
+def _conseq_script(fname, nums, extra):
+    """The family's script; with ``extra`` an unused constant zz<k> of every
+    declared constant sort is declared as well."""
     from ddsmt.nodes import Node
-    from ddsmt.mutator_utils import apply_simp
     fam, sel = FAMS[fname]
     inst = Inst()
-    try:
-        fam(inst, *nums, sel)
-    except Exception as e:
-        return 0, 0, None, f'no instance: {type(e).__name__}'
-    exprs = [_mk(Node, d) for d in inst.decls]
+    fam(inst, *nums, sel)
+    decls = list(inst.decls)
+    if extra:
+        sorts = []
+        for d in decls:
+            if d[0] == 'declare-const' and d[2] not in sorts:
+                sorts.append(d[2])
+        decls += [('declare-const', f'zz{k}', st)
+                  for k, st in enumerate(sorts)]
+    exprs = [_mk(Node, d) for d in decls]
     for t, s in inst.closed:
         tn = _mk(Node, t)
         if isinstance(tn.data, str):
             continue
         exprs.append(Node('assert', tn) if s == 'Bool'
                      else Node('assert', Node('=', tn, tn)))
-    e0 = _z3_accepts(nodeio.write_smtlib_to_str(exprs))
+    return exprs
+
+
+def _proposals_of(m, node, exprs):
+    props = []
+    if hasattr(m, 'mutations'):
+        props.extend(m.mutations(node))
+    if hasattr(m, 'global_mutations'):
+        props.extend(m.global_mutations(node, exprs))
+    return props
+
+
+def conseq_instance(fname, nums, want=None):
+    """All proposals of the 'same sort' mutators at every term position of
+    one generated script, with the mutator objects living as long as in a
+    run of ddSMT: (A) filter and proposals node by node, as the hierarchical
+    strategy calls them; (B) all filters first, then the proposals, as
+    ddmin does; (C) the same objects on a second input - the script without
+    its unused constants zz<k> - after collect_information, as after an
+    accepted simplification.  Returns (n_proposals, n_out_of_scope,
+    defect|None, skipped_reason|None)."""
+    import importlib
+    from ddsmt import smtlib, nodeio, nodes
+    from ddsmt.mutator_utils import apply_simp, Simplification
+    try:
+        exprs1 = _conseq_script(fname, nums, True)
+        exprs2 = _conseq_script(fname, nums, False)
+    except Exception as e:
+        return 0, 0, None, f'no instance: {type(e).__name__}'
+    e0 = _z3_accepts(nodeio.write_smtlib_to_str(exprs1))
     if e0:
         return 0, 0, None, f'instance not accepted by z3: {e0[:80]}'
-    smtlib.collect_information(exprs)
-    bound = _bound_symbols(exprs)
-    pos = []
-    for e in exprs:
-        if e.has_ident() and e.get_ident() == 'assert' and len(e) == 2:
-            _term_positions(e[1], frozenset(), pos)
     muts = [(cn, getattr(importlib.import_module('ddsmt.' + mn), cn)())
             for mn, cn in CONSEQ_MUTS]
     n = oos = 0
-    for pi, (node, scope) in enumerate(pos):
+
+    usersorts = set()
+
+    def judge(exprs, bound, node, scope, cn, props, phase):
+        nonlocal n, oos
+        for qi, p in enumerate(props):
+            n += 1
+            repl = list(p.substs.values())
+            res = apply_simp(exprs, Simplification(dict(p.substs),
+                                                   list(p.fresh_vars)))
+            err = _z3_accepts(nodeio.write_smtlib_to_str(res))
+            if not err:
+                continue
+            used = {x.data for r in repl if r is not None
+                    for x in nodes.dfs(r) if x.is_leaf()}
+            if cn == 'ReplaceByVariable' and (used & bound) - scope:
+                oos += 1        # known finding C16-bound-symbol-out-of-scope
+                continue
+            if cn == 'IntroduceFreshVariable' and any(
+                    x.is_leaf() and x.data in usersorts
+                    for v in p.fresh_vars if len(v) > 2
+                    for x in nodes.dfs(v[2])):
+                # known finding C16-fresh-variable-before-sort-declaration
+                oos += 1
+                continue
+            return (f'{cn} on {node.__str__()[:80]} in family {fname} '
+                    f'{tuple(nums)} ({phase}): replacement '
+                    f'{[r.__str__() for r in repl if r is not None]} with '
+                    f'declarations {[v.__str__() for v in p.fresh_vars]} is '
+                    f'rejected by the sort checker: {err[:160]}')
+        return None
+
+    for phase, exprs in (('A: node by node', exprs1),
+                         ('B: filters first', exprs1),
+                         ('C: second input, same mutator objects', exprs2)):
+        smtlib.collect_information(exprs)
+        bound = _bound_symbols(exprs)
+        usersorts = _user_sorts(exprs)
+        pos = []
+        for e in exprs:
+            if e.has_ident() and e.get_ident() == 'assert' and len(e) == 2:
+                _term_positions(e[1], frozenset(), pos)
         for cn, m in muts:
             try:
-                if not m.filter(node):
-                    continue
-                props = list(m.mutations(node))
+                if phase.startswith('B'):
+                    acc = [(nd, sc) for nd, sc in pos if m.filter(nd)]
+                else:
+                    acc = pos
             except Exception:
-                continue             # C04's business
-            for qi, p in enumerate(props):
-                if want is not None and want != (pi, cn, qi):
-                    continue
-                n += 1
-                repl = list(p.substs.values())
-                res = apply_simp(exprs, p)
-                txt = nodeio.write_smtlib_to_str(res)
-                err = _z3_accepts(txt)
-                if not err:
-                    continue
-                used = {x.data for r in repl if r is not None
-                        for x in nodes.dfs(r) if x.is_leaf()}
-                if cn == 'ReplaceByVariable' and (used & bound) - scope:
-                    # known finding C16-bound-symbol-out-of-scope
-                    oos += 1
-                    continue
-                return n, oos, {
-                    'family': fname, 'nums': list(nums), 'position': pi,
-                    'mutator': cn, 'proposal': qi,
-                    'msg': (f'{cn} on {node.__str__()[:80]} in family {fname}'
-                            f' {tuple(nums)}: replacement '
-                            f'{[r.__str__() for r in repl if r is not None]}'
-                            f' is rejected by the sort checker: {err[:160]}')
-                }, None
+                continue
+            for node, scope in acc:
+                try:
+                    if not phase.startswith('B') and not m.filter(node):
+                        continue
+                    props = _proposals_of(m, node, exprs)
+                except Exception:
+                    continue             # C04's business
+                d = judge(exprs, bound, node, scope, cn, props, phase)
+                if d:
+                    return n, oos, {'family': fname, 'nums': list(nums),
+                                    'msg': d}, None
     return n, oos, None, None
 
 
@@ -724,12 +817,34 @@ def run_conseq(fnames, tier):
             'solver_seconds': 0.0,
             'samples': [{'families': fnames[:3], 'numerals': list(nums)}],
             'queries': {'proposals_sort_checked': n,
-                        'in_known_region_out_of_scope_bound_symbol': oos,
+                        'in_known_regions': oos,
                         'instances_skipped': skipped[:6],
                         'n_instances_skipped': len(skipped)},
             'note': 'z3 front end as independent sort checker of the script '
                     'after each proposed replacement (concrete numerals)',
             'wall_s': round(time.time() - t0, 2)}
+
+
+def conseq_known_witness2():
+    """Replay of known finding C16-fresh-variable-before-sort-declaration."""
+    from ddsmt import smtlib, nodeio, mutators_smtlib
+    from ddsmt.mutator_utils import apply_simp
+    exprs = list(nodeio.parse_smtlib(
+        '(set-logic ALL)(declare-datatype P ((mk (fst Int) (snd Int))))'
+        '(declare-const p P)(assert (= (mk (fst p) 1) p))'))
+    smtlib.collect_information(exprs)
+    t = exprs[3][1][1]
+    m = mutators_smtlib.IntroduceFreshVariable()
+    if not m.filter(t):
+        return None
+    for p in m.global_mutations(t, exprs):
+        txt = nodeio.write_smtlib_to_str(apply_simp(exprs, p))
+        err = _z3_accepts(txt)
+        if err:
+            return ('IntroduceFreshVariable declares the fresh variable of '
+                    'sort P before (declare-datatype P ...): '
+                    + txt.replace(chr(10), ' ') + ' -> ' + err[:120])
+    return None
 
 
 def conseq_known_witness():
@@ -982,11 +1097,12 @@ def replay(part, cex):
     if part == 'known_out_of_scope':
         _conseq_options()
         return conseq_known_witness()
+    if part == 'known_fresh_before_sort':
+        _conseq_options()
+        return conseq_known_witness2()
     if part.startswith('conseq'):
         _conseq_options()
-        n, o, d, sk = conseq_instance(
-            cex['family'], tuple(cex['nums']),
-            (cex['position'], cex['mutator'], cex['proposal']))
+        n, o, d, sk = conseq_instance(cex['family'], tuple(cex['nums']))
         return d['msg'] if d else None
     if part == 'defaults':
         r = run_defaults()
